@@ -1014,6 +1014,11 @@ impl<'de> serde::de::Visitor<'de> for ParsedValueSeed<'_> {
     where
         E: serde::de::Error,
     {
+        if self.in_range {
+            return Err(serde::de::Error::custom(
+                "explicit defaults (null) are not allowed in ranges",
+            ));
+        }
         Ok(ParsedValue::Default)
     }
 
